@@ -63,6 +63,7 @@ PROPS = {
     'C02': {
         'kani': [K('langid_leaf', h) for h in LEAF_LID],
         'verus': [V('bridge', BRIDGE_LID)] + LID_PARSER,
+        'standin': ['lid'],
         'explanation': 'parse_language_identifier_from_iter (verbatim text, loop invariant + decreases) returns exactly the value / error '
                        'the grammar of C02 prescribes for every subtag sequence; leaf contracts are discharged by Kani',
     },
@@ -72,6 +73,7 @@ PROPS.update({
     'C01': {
         'kani': [K('langid_leaf', h) for h in LEAF_LID + ['leaf_language_default_is_und']] + LOCALE_LEAF + [PRIVATE_BOUNDED],
         'verus': [V('bridge', BRIDGE_ALL)] + LID_PARSER + LOC_PARSER,
+        'standin': ['lid', 'locale'],
         'explanation': 'every parser function verifies in Verus, which includes for all inputs: no reachable panic!/unimplemented!/unwrap-on-None, '
                        'indices in bounds, no overflow, and a decreases measure on every loop (termination, unbounded input length); the byte-level '
                        'leaf functions are panic-/overflow-/bounds-free for all byte strings by Kani on the real tinystr code',
@@ -79,6 +81,7 @@ PROPS.update({
     'C03': {
         'kani': [K('langid_leaf', h) for h in LEAF_LID] + LOCALE_LEAF + [PRIVATE_BOUNDED],
         'verus': [V('bridge', BRIDGE_ALL)] + LID_PARSER + LOC_PARSER,
+        'standin': ['lid', 'locale'],
         'explanation': 'Locale::from_bytes == the recogniser ext_parse/lid grammar written from the UTS #35 productions of the statement: Ok exactly '
                        'when the recogniser accepts, and the value holds exactly the recognised subtags in normalised form (nothing dropped or '
                        'reinterpreted); multi-character / repeated / unknown singletons, second tlang, malformed or misplaced subtags => Err',
